@@ -921,7 +921,7 @@ async fn takeover_body(stack: Stack, case: &TakeoverCase) -> R<()> {
 // C16 — the will decision logic of remote()
 // =======================================================================================
 
-pub const C16_E5_RULE: &str = "E5: a real connection task (v4 or v5 listener) whose CONNECT registers a will (topic w/a or w/b, 1-8 byte payload, QoS 0-2, optionally retained; v5 optionally with a will-delay property and no session expiry, i.e. effective delay 0, and further will properties) or no will; 0-3 packets are exchanged; the connection then ends by DISCONNECT (then close, or wait for the broker's close), by dropping the stream (after CONNACK, after a PUBLISH that was not yet acknowledged, in the middle of a packet), by a malformed packet, by a router-initiated close (unsolicited PUBACK / PUBREC / PUBCOMP / PUBREL, v5 PUBLISH with topic alias 0, SUBSCRIBE to a $-filter) or (thorough tier) by keep-alive expiry. An observer (v4 or v5) holds ONE subscription (w/a, w/b, w/+ or w/#). After the connection task was joined a controller publishes a sentinel on a topic of that filter; the observer must have received, before the sentinel, exactly one copy of the will (topic, payload) iff a will was registered, no DISCONNECT was sent and the topic matches the filter, and nothing otherwise. A late subscriber (of the other protocol version than the observer) then receives the retained copy iff the will fired with retain set. Regions F1 (stream dropped before the CONNACK could be written) and F3 (DISCONNECT sent while a write towards the client is pending or failing: the subject never subscribes, so nothing is owed to it when it disconnects) are excluded by construction and probed separately. Takeovers are not generated. Non-trivial: will registered, matching observer, end other than DISCONNECT.";
+pub const C16_E5_RULE: &str = "E5: a real connection task (v4 or v5 listener) whose CONNECT registers a will (topic w/a or w/b, 1-8 byte payload, QoS 0-2, optionally retained; v5 optionally with a will-delay property and no session expiry, i.e. effective delay 0, and further will properties) or no will; 0-3 packets are exchanged; the connection then ends by DISCONNECT (then close, or wait for the broker's close), by dropping the stream (after CONNACK, after a PUBLISH that was not yet acknowledged, in the middle of a packet), by a malformed packet, by a router-initiated close (unsolicited PUBACK / PUBREC / PUBCOMP / PUBREL, v5 PUBLISH with topic alias 0, SUBSCRIBE to a $-filter) or (thorough tier) by keep-alive expiry. An observer (v4 or v5) holds ONE subscription (w/a, w/b, w/+ or w/#). After the connection task was joined a controller publishes a sentinel on a topic of that filter; the observer must have received, before the sentinel, exactly one copy of the will (topic, payload) iff a will was registered, no DISCONNECT was sent and the topic matches the filter, and nothing otherwise. A late subscriber (of the other protocol version than the observer) then receives the retained copy iff the will fired with retain set. Regions F1 (stream dropped before the CONNACK could be written) and F3 (DISCONNECT sent while a write towards the client is pending or failing: the subject never subscribes, so nothing is owed to it when it disconnects) are excluded by construction and probed separately. In a fifth of the cases with a client-side end the router is backed up at that moment (it takes no turns and its event channel is filled up to one free slot with work-less wake-ups, released by a helper thread once the channel has been full for 10 ms): what remote() hands to the router has to wait for capacity and must not be dropped. Takeovers are not generated. Non-trivial: will registered, matching observer, end other than DISCONNECT.";
 
 const WILL_TOPICS: [&str; 2] = ["w/a", "w/b"];
 /// (filter, topic on which the controller publishes sentinels)
@@ -981,6 +981,10 @@ pub struct C16Case {
     pub pre: Vec<u8>,
     pub end: End,
     pub late_subscriber: bool,
+    /// the router is busy elsewhere and its event channel is (all but) full when the subject's
+    /// connection ends (client-side ends only): what `remote()` hands over has to wait
+    #[serde(default)]
+    pub backed_up: bool,
 }
 
 fn will_spec() -> BoxedStrategy<WillSpec> {
@@ -1028,16 +1032,17 @@ fn c16_case(keepalive: bool) -> BoxedStrategy<C16Case> {
         prop_oneof![5 => will_spec().prop_map(Some), 1 => Just(None)],
         prop::collection::vec(0u8..3, 0..=3),
         end_strategy(keepalive),
-        prop::bool::weighted(0.5),
+        (prop::bool::weighted(0.5), prop::bool::weighted(0.2)),
     )
-        .prop_map(|(seed, ver, obs_ver, obs_filter, obs_qos, mut will, pre, end, late_subscriber)| {
+        .prop_map(|(seed, ver, obs_ver, obs_filter, obs_qos, mut will, pre, end, (late_subscriber, backed_up))| {
             if let Some(w) = will.as_mut() {
                 if ver == Ver::V4 {
                     w.delay = None;
                     w.more_props = false;
                 }
             }
-            C16Case { seed, ver, obs_ver, obs_filter, obs_qos, will, pre, end, late_subscriber }
+            let client_side = matches!(end, End::Disconnect { .. } | End::DisconnectProps { .. } | End::Close | End::CloseAfterPublish { .. } | End::CloseMidPacket { .. });
+            C16Case { seed, ver, obs_ver, obs_filter, obs_qos, will, pre, end, late_subscriber, backed_up: backed_up && client_side }
         })
         .boxed()
 }
@@ -1089,11 +1094,13 @@ impl Campaign for C16Wills {
             .prop_map(move |(mut c, w)| {
                 match mode {
                     C16Mode::ProbeF1 => {
+                        c.backed_up = false;
                         c.end = End::CloseBeforeConnack;
                         c.will.get_or_insert(w);
                         c.obs_filter = 1; // w/# matches every will topic
                     }
                     C16Mode::ProbeF3 => {
+                        c.backed_up = false;
                         c.end = End::DisconnectWhileWriteBlocked;
                         c.will.get_or_insert(w);
                         c.obs_filter = 1;
@@ -1125,6 +1132,7 @@ impl Campaign for C16Wills {
         let matching = case.will.as_ref().is_some_and(|w| ref_matches(WILL_TOPICS[w.topic as usize % 2], filter));
         let polite = matches!(case.end, End::Disconnect { .. } | End::DisconnectProps { .. } | End::DisconnectWhileWriteBlocked);
         obs.class_if(case.will.is_some(), "will_registered");
+        obs.class_if(case.backed_up, "router_backed_up_at_the_end");
         obs.class_if(polite, "end_disconnect");
         obs.class_if(case.will.is_some() && !polite && matching, "will_expected");
         obs.class_if(case.will.is_some() && !matching, "observer_not_matching");
@@ -1214,6 +1222,10 @@ async fn c16_body(stack: Stack, case: &C16Case, late_ver: Ver) -> R<()> {
         }
     }
     let mut sent_disconnect = false;
+    if case.backed_up {
+        // id 0 = the observer (first connection of the case): a wake-up without work
+        stack.back_up_router(0);
+    }
     match &case.end {
         End::Disconnect { wait } => {
             sent_disconnect = true;
